@@ -277,6 +277,8 @@ def judge_design(c, b, drv):
                 for full in (True, False):
                     val = make_value(b.design, res, full, len(cmds))
                     base = {"op": "call", "service": s["name"], "method": m["name"], "payload": None, "script": {"result": val, "view": "" if fixed else view}}
+                    if m.get("skip_request_body"):
+                        base["payload"], base["raw_body"] = {"tag": "t%d" % len(cmds)}, "raw body %d" % len(cmds)
                     cmds.append(base)
                     meta.append((m, T, view, val, None))
                     if full and view in defined and not fixed:
@@ -285,6 +287,18 @@ def judge_design(c, b, drv):
                             c2["script"]["tamper_view"] = tv
                             cmds.append(c2)
                             meta.append((m, T, view, val, tv))
+                    if full and view in defined and not res["type"].get("collection"):
+                        # a non-conforming server: the response lacks a required attribute of the labelled view
+                        hdr_attrs = {mp["attr"] for r0 in ((m.get("http") or {}).get("responses") or []) for mp in (r0.get("headers") or [])}
+                        in_view = [a["name"] for v in rts[T]["views"] if v["name"] == view for a in v["attrs"]]
+                        prim_attrs = {f["name"] for f in rts[T]["att"]["type"].get("object") or [] if (f["att"].get("type") or {}).get("prim")}
+                        for an in rts[T]["att"].get("required") or []:
+                            # (primitive attributes: a missing required array is accepted as an empty one, see C14)
+                            if an in in_view and an not in hdr_attrs and an in prim_attrs:
+                                c2 = json.loads(json.dumps(base))
+                                c2["script"]["tamper_drop"] = [an]
+                                cmds.append(c2)
+                                meta.append((m, T, view, val, "drop:" + an))
     if not cmds:
         return
     obs, err = b.run(cmds)
@@ -308,9 +322,14 @@ def judge_design(c, b, drv):
     for k, ((m, T, view, val, tv), cmd, o) in enumerate(zip(meta, cmds, obs)):
         c.evaluations += 1
         c.count((b.index, k))
+        if m.get("skip_request_body"):
+            c.hist("request body streamed to the service", "arrived" if o.get("server_body") == cmd.get("raw_body") else "differs" if o.get("server_called") else "method not called")
+            if o.get("server_called") and o.get("server_body") != cmd.get("raw_body"):
+                c.fail("c08/streamed-request-body", "%s: the service read %r from the request body stream, the client sent %r" % (m["name"], o.get("server_body"), cmd.get("raw_body")),
+                       input={"seed": c.seed, "index": b.index, "command": cmd}, design=b.design)
         known = model[len(ops) + k] == "1"
         is_coll = bool(m["result"]["type"].get("collection"))
-        c.hist("case", ("tampered:" + ("undefined" if tv == "nope" else "other")) if tv else ("view:" + ("defined" if view in [v["name"] for v in rts[T]["views"]] else (view or "empty"))))
+        c.hist("case", ("tampered:" + ("undefined" if tv == "nope" else "dropped" if tv.startswith("drop:") else "other")) if tv else ("view:" + ("defined" if view in [v["name"] for v in rts[T]["views"]] else (view or "empty"))))
         inp = {"seed": c.seed, "index": b.index, "command": cmd}
         w = o.get("wire") or {}
         if o.get("panic") and known:
@@ -329,6 +348,12 @@ def judge_design(c, b, drv):
             if not o.get("client_error") and flat_keys(o.get("client_result")):
                 c.fail("c08/undefined-view-accepted", "%s: the service chose the undefined view %r and the client still got a result %s" %
                        (m["name"], view, json.dumps(o.get("client_result"))[:200]), input=inp, design=b.design)
+            continue
+        if tv and tv.startswith("drop:"):
+            c.hist("case", "required attribute of the view dropped from the response")
+            if not o.get("client_error"):
+                c.fail("c08/client-accepts-response-without-required-attribute", "%s view %r: the response lacked the required attribute %s of the view and the client "
+                       "accepted it: %s" % (m["name"], view, tv[5:], json.dumps(o.get("client_result"))[:200]), input=inp, design=b.design)
             continue
         if tv == "nope":
             if not o.get("client_error"):
